@@ -555,3 +555,37 @@ Corollary rev_segments_disjoint ts : Forall (fun seg => NoDup (qvals seg)) (rev_
 Proof. apply rev_segs_disjoint; [intros q; cbn; tauto| constructor]. Qed.
 Print Assumptions pair_segments_concat. Print Assumptions pair_segments_disjoint.
 Print Assumptions rev_segments_concat. Print Assumptions rev_segments_disjoint.
+
+(* ---------- SPP / SPP_DAG: one product at a time, the same basis change around S or S_DAG on the first qubit ---------- *)
+Lemma spp_terms_some a sup f hx hy cn :
+  spp_terms a sup (Some f) hx hy cn = (Some f, hx ++ xs_of a sup, hy ++ ys_of a sup, cn ++ flat_map (fun q => [q; f]) sup).
+Proof.
+  revert hx hy cn. induction sup as [|q sup IH]; intros hx hy cn; cbn [spp_terms xs_of ys_of filter flat_map].
+  - now rewrite !app_nil_r.
+  - rewrite IH. unfold xs_of, ys_of. destruct (ax a q), (az a q); cbn [andb negb]; rewrite <- ?app_assoc; reflexivity.
+Qed.
+Lemma spp_terms_none a q sup :
+  spp_terms a (q :: sup) None [] [] [] = (Some q, xs_of a (q :: sup), ys_of a (q :: sup), flat_map (fun q' => [q'; q]) sup).
+Proof.
+  cbn [spp_terms]. rewrite spp_terms_some. unfold xs_of, ys_of. cbn [filter].
+  destruct (ax a q), (az a q); cbn [andb negb app]; reflexivity.
+Qed.
+
+(* the gates around S / S_DAG in spp_one are those of a one-product block, so block_measures_products (with no neighbours) says that
+   the Z of S's target pulls back to the product: the emitted sequence is sqrt(+-P), the sign choosing S or S_DAG *)
+Theorem spp_one_pulls_back_to_product n a q sup' :
+  active n a = q :: sup' ->
+  exists hx hy cn, spp_terms a (active n a) None [] [] [] = (Some q, hx, hy, cn) /\
+  let R := pull hx hy cn (Zat q) in
+  fst R = false /\ forall k, snd R k = if existsb (Nat.eqb k) (active n a) then cont a k else pI.
+Proof.
+  intros Es. rewrite Es, spp_terms_none. eexists; eexists; eexists. split; [reflexivity|].
+  assert (Hw : wfg (a, q :: sup')) by (rewrite <- Es; apply active_wfg; rewrite Es; discriminate).
+  assert (Hn : NoDup (q :: sup')) by (rewrite <- Es; apply active_NoDup).
+  pose proof (block_measures_products [] (a, q :: sup') [] q sup') as B. cbn zeta in B.
+  specialize (B (Forall_cons _ Hw (Forall_nil _))). cbn [app flat_map snd] in B. rewrite app_nil_r in B.
+  specialize (B Hn eq_refl). cbn [buffer_all] in B. rewrite buffer_terms_none in B.
+  cbn [h_xz h_yz cnot meas merged with_merged mbuf0 app fst snd] in B. destruct B as (Bs & Bc & _).
+  split; [exact Bs|]. intros k. rewrite Bc. unfold in_sup. cbn [snd fst]. reflexivity.
+Qed.
+Print Assumptions spp_one_pulls_back_to_product.
